@@ -94,6 +94,7 @@ structure Cfg where
   hasErr : Bool                                   -- the stream has `err` and `Write` checks it
   pkt : Nat → Bytes → Bool → Except Err Bytes     -- numBlocks/seqno, chunk, isFinal
   pieces : Bytes → List Bytes
+  assertExtra : Nat := 0                          -- see `assertPanics` (64 for signcryption)
 
 structure PSt (ω : Type) where
   codec : Codec ω
@@ -112,9 +113,13 @@ def readPanics (v1shape isFinal : Bool) (bs chunkLen bufLen : Nat) : Bool :=
     for major version 2 an empty chunk is allowed only as the final block number
     0 — otherwise `checkChunkState` returns `ErrUnexpectedEmptyBlock` and the
     assertion panics (a second `Close` does this).  For major version 1 the
-    condition `(chunkLen == 0) != isFinal` is the one `readPanics` already checked. -/
-def assertPanics (v1shape isFinal : Bool) (chunkLen n : Nat) : Bool :=
-  if v1shape then isFinal != (chunkLen == 0) else chunkLen == 0 && (n != 0 || !isFinal)
+    condition `(chunkLen == 0) != isFinal` is the one `readPanics` already checked.
+    `extra`: what the asserted length counts beyond the chunk — signcryption
+    asserts on `len(ciphertext) - Overhead` = 64 signature bytes + chunk, so its
+    assertion never fires (a second `Close` of a signcryption stream emits another
+    empty final packet). -/
+def assertPanics (v1shape : Bool) (extra : Nat) (isFinal : Bool) (chunkLen n : Nat) : Bool :=
+  if v1shape then isFinal != (chunkLen == 0) else chunkLen + extra == 0 && (n != 0 || !isFinal)
 
 /-- `encryptBlock(isFinal)` / `signBlock(isFinal)` / `signcryptBlock(isFinal)`:
     take up to a block out of the buffer (it is gone whatever happens next),
@@ -129,7 +134,7 @@ def emitBlock (cfg : Cfg) (isFinal : Bool) (st : PSt ω) : Option Err × PSt ω 
     match cfg.pkt st.n chunk isFinal with
     | .error e => (some e, st1)
     | .ok b =>
-      if assertPanics cfg.v1shape isFinal chunk.length st.n then (some (.panic "assertEncodedChunkState"), st1)
+      if assertPanics cfg.v1shape cfg.assertExtra isFinal chunk.length st.n then (some (.panic "assertEncodedChunkState"), st1)
       else
         match Codec.encode wr cfg.pieces st.codec b with
         | (true, c') => (none, { st1 with codec := c', n := st.n + 1 })
@@ -299,7 +304,7 @@ def signcryptSetup (bs : Nat) (pieces : Bytes → List Bytes) (sender : Option B
     let headerBytes := encode (Signcrypt.header P sender eph payloadKey rs).toVal
     let hh := P.hash headerBytes
     .ok (headerBytes, { bs := bs, v1shape := false, hasErr := true,
-                        pkt := scPkt P sender payloadKey hh, pieces := pieces })
+                        pkt := scPkt P sender payloadKey hh, pieces := pieces, assertExtra := 64 })
 
 /-- `newSignDetachedStream` given the header nonce: header bytes and the
     signature-packet function -/
